@@ -26,6 +26,10 @@ class Outer:
             """
             y = """assigned
             value keeps its blanks"""
+        b"""bytes are never
+        a docstring"""
+        tag = u'legacy', u"""multi
+        line"""
         return x
 
     class Inner:
